@@ -510,6 +510,9 @@ func c09r5(p *Prog, r *Reporter) {
 		callee := "?"
 		if sc := rs.call.Common().StaticCallee(); sc != nil {
 			callee = p.FuncName(sc)
+			if typeName(recvType(sc)) != "componentRegistry" {
+				continue // outer callers only see the consequence of a failed innermost site
+			}
 		}
 		if rs.ok {
 			r.OK(name, "registry insert via "+callee, p.Pos(rs.call.Pos()),
